@@ -72,6 +72,11 @@ func runC07(c *Ctx) {
 				Input: map[string]interface{}{"program": src, "spec": cs.spec.Name, "seed": cs.spec.Seed, "error": res.ErrMsg, "history": excerpt(res.Events, 120)}})
 		}
 	}
+	for _, cp := range compilePanics {
+		r.violate(Violation{Kind: "property", Key: "C07:compile-panic:" + reHex.ReplaceAllString(firstLine(cp["panic"]), "N"),
+			What:  "the compiler / call-graph resolver panicked on a generated program: " + cp["panic"],
+			Input: cp})
+	}
 	if c07CompileHook != nil {
 		c07CompileHook(c)
 	} else {
